@@ -150,6 +150,10 @@ def gen(c):
             add({"op": "decrypt", "iface": iface, "d": i2b(d), "ct": forged, "chunks": "%d" % (len(forged) // 2)}, decrypt_case(d, forged, "c1:zero_zero_consistent:%s:len%d" % (iface, ln), iface))
     # C3 / C2 modifications, C2 lengths 255 and 256
     add({"op": "decrypt", "iface": "der", "d": i2b(d), "ct": ct_der(C1, bytes([C3[0] ^ 1]) + C3[1:], C2)}, decrypt_case(d, ct_der(C1, bytes([C3[0] ^ 1]) + C3[1:], C2), "c3:flipped", "der"))
+    for nm, c3x in CL.cancelling(C3):          # differences that cancel in a sloppy comparison of C3
+        fb = ct_der(C1, c3x, C2)
+        for iface in ("der", "do", "ctx"):
+            add({"op": "decrypt", "iface": iface, "d": i2b(d), "ct": fb, "chunks": "%d" % (len(fb) // 3)}, decrypt_case(d, fb, "c3:%s:%s" % (nm, iface), iface))
     for ln in (255, 256):
         mm = rb(ln)
         k = rng.randrange(1, n)
